@@ -847,7 +847,8 @@ def eval_determinism(case: dict) -> dict:
                 spec = {"root": root, "flags": flags, "fmt": fmt, "cache_dir": cdir, "targets": targets, "mods": list(case["mods"]), "fixture": False, "clients": list(case["clients"]), "want": ["records"], "store": v.get("store", "sqlite"), "workers": v.get("workers", 0)}
                 r = run_driver(spec, timeout=900, env=v.get("env"))
                 if r["status"] != "ok":
-                    out["labels"]["determinism:%s:%s" % (vname, r["status"])] = 1
+                    out["labels"]["determinism:%s:%s" % (vname, r["status"])] = out["labels"].get("determinism:%s:%s" % (vname, r["status"]), 0) + 1
+                    out.setdefault("variant_failures", []).append("%s/%s/%s: %s" % (case["name"], fmt, vname, crash_instance(r.get("err", ""))))
                     if vname == "base":
                         break
                     continue
@@ -1221,6 +1222,8 @@ def _run(run: Run) -> None:
         run.label("determinism_variant_builds", res.get("variants", 0))
         for k, v in res.get("labels", {}).items():
             run.label(k, v)
+        for vf in res.get("variant_failures", []):
+            run.extra.setdefault("determinism_variant_failures", []).append(vf)
         if res["status"] == "harness":
             run.label("harness_problem")
             run.extra.setdefault("harness_problems", []).append(trunc(res["harness"][0], 800))
